@@ -21,10 +21,12 @@ def solver_check(fn):
         holder = {}
         try:
             R, tech = fn(P, tier, SA, holder)
-        except RS.NoPath:
-            if "R" not in holder or (not SA.faults and not any(o.verdict == "differs" for o in grid_obs(SA))):
+        except RS.NoPath as e:
+            if "R" not in holder:
                 raise
             R, tech = holder["R"], holder.get("tech", "abstract interpretation")
+            if not SA.faults and not any(o.verdict == "differs" for o in grid_obs(SA)):
+                R.add(req_ob("R-INTERP", "src/bldfm/solver.py::steady_state_transport_solver", "the property's own rules can be evaluated on the abstract solver runs", None, detail=str(e)))
         except AnalysisError as e:
             # the property's own rules could not be evaluated; the structural rules shared by all solver properties
             # (module state, FFT wrapper state, argument mutation, dtype / index discipline) are still decided, so a
@@ -241,9 +243,16 @@ def path_uniformity(SA):
                     s1, s2 = getattr(ref, nm).shape, getattr(w, nm).shape
                     if s1 is None or s2 is None or len(s1) != len(s2) or not all(x.eq(y) for x, y in zip(s1, s2)):
                         same, why = False, "%s shape differs" % nm
-                extra = [d for d in w.r.path if d not in ref.r.path]
+                extra = [d for d in w.r.path if d not in ref.r.path] + [d for d in ref.r.path if d not in w.r.path]
+                guessed = [d for d in extra if d[0].startswith("unknown test")]
+                verdict = same
+                if not same and guessed:
+                    # the two paths differ by a test on a value the interpreter does not model (it explored both outcomes
+                    # blindly): whether the distinction is harmless cannot be decided here
+                    verdict = None
+                    why = "%s; the paths differ by an unmodelled test (%s)" % (why, guessed[0][0][:80])
                 obs.append(req_ob("R-PATHS", "src/bldfm/solver.py::steady_state_transport_solver (footprint=%s analytic=%s %s mode, halo %s)" % (key[0], key[1], key[2], key[3]),
-                                  "case distinctions other than clamp / re-centring do not change the result (case %s)" % (gk,), same,
+                                  "case distinctions other than clamp / re-centring do not change the result (case %s)" % (gk,), verdict,
                                   detail=None if same else "%s on the path taking %s" % (why, [(d[0][:80], d[1]) for d in extra][:3])))
     return obs
 
